@@ -2,6 +2,7 @@
 // public route from a spelling to a node yields the constant, not a look-alike.
 #include "common.hpp"
 #include "reserved.hpp"
+#include "hashtwins.hpp"
 #include <ipr/impl>
 #include <thread>
 #include <set>
@@ -248,10 +249,26 @@ static void check_routes(impl::Lexicon& lex, Rng& rng, std::uint64_t inst)
             if (static_cast<const ipr::Node*>(&at.name()) != static_cast<const ipr::Node*>(&cid) && static_cast<const ipr::Node*>(&at.name()) != static_cast<const ipr::Node*>(&lex.get_identifier(w))) tviol("route:client-identifier->as-type:name", "get_as_type(a client-made Identifier) is named by neither that node nor the Lexicon's identifier of the spelling");
          }
       }
+      // ordinary words with the length AND the std::hash value of a constant's spelling (possible from 9 bytes on), as words,
+      // identifiers and identifiers-as-types: whatever the word pool files under that hash, the spelling still leads to the constant
+      {
+         std::vector<std::string> spellings; for (int i = 0; i < NB; ++i) spellings.push_back(builtins[i].spelling);
+         for (auto w : { "thread_local", "constexpr", "consteval", "constinit", "protected" }) spellings.push_back(w);
+         for (auto& sp : spellings) for (unsigned char last : { (unsigned char)'#', (unsigned char)0, (unsigned char)0xC3 }) {
+            const std::string tw = same_length_hash_twin(sp, last);
+            if (tw.empty()) { if (sp.size() >= 9) tcount("hash_twins_unavailable"); continue; }
+            auto& ts = lex.get_string(widen(tw)); auto& tid = lex.get_identifier(widen(tw)); auto& tt = lex.get_as_type(tid);
+            tcount("same_length_hash_twins_of_constant_spellings_planted");
+            if (narrow(ts.characters()) != tw || &tid.string() != &ts) tviol("route:hash-twin:spelling", "an ordinary word with the length and hash code of \"" + sp + "\" is not interned under its own spelling");
+            if (constants.count(&tt) || constants.count(&tid)) tviol("route:hash-twin-yields-constant", "an ordinary word with the length and hash code of \"" + sp + "\" leads to a constant");
+            if (&lex.get_string(widen(sp)) == &ts) tviol("route:hash-twin:word-lookalike", "get_string(\"" + sp + "\") is the node of an ordinary word with the same length and hash code");
+         }
+      }
       if (&lex.get_label(lex.get_identifier(u8"default")) != &L.default_value()) tviol("route:identifier->label:default:after-look-alikes", "get_label(identifier \"default\") is no longer default_value() once a symbol spelled default exists in the Lexicon");
       if (&L.default_value().type() == &L.void_type()) tviol("constant:type:default_value", "default_value() is typed void");
       if (&lex.get_decltype(L.nullptr_value()) != &L.nullptr_value().type()) tviol("route:expression->decltype:nullptr:after-look-alikes", "get_decltype(nullptr_value()) is no longer nullptr_value().type()");
       for (int i = 0; i < NB; ++i) if (&lex.get_as_type(lex.get_identifier(widen(builtins[i].spelling))) != &(L.*builtins[i].get)()) tviol("route:identifier->as-type:lookalike:after-look-alikes", "a built-in spelling no longer leads to the built-in once look-alikes exist");
+      for (int i = 0; i < NB; ++i) if (&lex.get_identifier(widen(builtins[i].spelling)) != &(L.*builtins[i].get)().name() || narrow(lex.get_string(widen(builtins[i].spelling)).characters()) != builtins[i].spelling) tviol("route:identifier:lookalike:after-look-alikes", "a built-in spelling no longer leads to the Identifier naming the built-in (or to a word spelled that way) once look-alikes exist");
       if (&lex.get_linkage(u8"C") != &L.c_linkage() || &lex.get_linkage(u8"C++") != &L.cxx_linkage()) tviol("route:word->linkage:after-look-alikes", "a standard linkage spelling no longer leads to the constant");
    }
    (void)rng;
@@ -306,7 +323,7 @@ static void body(Ctx& C)
    C.sample(J().s("kind", "route").s("route", "get_as_type(get_identifier(\"long long\"))").s("expect", "long_long_type()").str());
    C.sample(J().s("kind", "near-miss").s("route", "get_as_type(get_identifier(\"long long \"))").s("expect", "not a constant, unified").str());
    C.need("builtin_accessors_checked"); C.need("builtin_pairs_checked"); C.need("routes_checked"); C.need("near_miss_routes_checked");
-   C.need("lexicon_instances"); C.need("lexicon_instances_threaded");
+   C.need("lexicon_instances"); C.need("lexicon_instances_threaded"); C.need("same_length_hash_twins_of_constant_spellings_planted");
    C.exhaustive(true);
 }
 
